@@ -10,6 +10,10 @@
 //     -- then the result value is dropped and a collection is forced --
 //     S bytes threshold nobjects collections  after the forced collection
 //     T true_bytes                            sum of the sizes of the boxes then in the heap
+//     TI indep_bytes unknown_boxes            the same sum with size_of::<T>() taken HERE (table `indep_size` below: the payload
+//                                             types of value.rs + Chunk/ObjUpvalue), not from the size the allocator logged;
+//                                             unknown_boxes = live boxes of a kind the table does not know (counted with the logged size).
+//                                             The P records carry the same two numbers as 6th and 7th field.
 //     K kind=count...                         live boxes by kind
 //     RK kind=count...                        boxes with num_roots > 0 by kind (snapshot), Vm still alive
 //     RS rooted_boxes sum_num_roots max_num_roots
@@ -51,10 +55,47 @@ fn true_bytes() -> usize {
     })
 }
 
+// size_of of every payload type the Vm allocates, computed here (independent of `allocate_raw`'s own idea of the size)
+fn indep_size(kind: &str) -> Option<usize> {
+    use std::any::type_name as tn;
+    use std::mem::size_of as sz;
+    use yarel::chunk::Chunk;
+    use yarel::object::*;
+    macro_rules! table {
+        ($($t:ty),* $(,)?) => { [$((tn::<$t>(), sz::<$t>())),*] };
+    }
+    let t = table![
+        ObjString, RefCell<ObjStringIter>, ObjFunction, ObjNative, ObjClosure, ObjClass, RefCell<ObjInstance>,
+        RefCell<ObjBoundMethod<ObjClosure>>, RefCell<ObjBoundMethod<ObjNative>>, ObjTuple, RefCell<ObjTupleIter>,
+        RefCell<ObjVec>, RefCell<ObjVecIter>, ObjRange, RefCell<ObjRangeIter>, RefCell<ObjHashMap>,
+        RefCell<ObjModule>, RefCell<ObjFiber>, RefCell<ObjUpvalue>, Chunk,
+    ];
+    t.iter().find(|(k, _)| *k == kind).map(|(_, s)| *s)
+}
+
+fn indep_bytes() -> (usize, usize) {
+    drain_log();
+    SIZES.with(|s| {
+        let s = s.borrow();
+        let (mut bytes, mut unknown) = (0usize, 0usize);
+        for (k, n) in gcv::object_kinds() {
+            match indep_size(k) {
+                Some(sz) => bytes += sz * n,
+                None => {
+                    bytes += s.get(k).copied().unwrap_or(0) * n;
+                    unknown += n;
+                }
+            }
+        }
+        (bytes, unknown)
+    })
+}
+
 fn heap_probe(_vm: &mut Vm, _num_args: usize) -> Result<Value, Error> {
     let (b, t, n, c) = gcv::stats();
     let tb = true_bytes();
-    PROBES.with(|p| p.borrow_mut().push(format!("P {} {} {} {} {}", b, t, n, c, tb)));
+    let (ib, unk) = indep_bytes();
+    PROBES.with(|p| p.borrow_mut().push(format!("P {} {} {} {} {} {} {}", b, t, n, c, tb, ib, unk)));
     Ok(Value::None)
 }
 
@@ -111,6 +152,8 @@ fn cmd_c16(args: &[&str], out: &mut Vec<String>) {
     let (b, t, n, c) = gcv::stats();
     out.push(format!("S {} {} {} {}", b, t, n, c));
     out.push(format!("T {}", true_bytes()));
+    let (ib, unk) = indep_bytes();
+    out.push(format!("TI {} {}", ib, unk));
     out.push(kinds_line("K", &gcv::object_kinds()));
     let snap = gcv::snapshot();
     let mut rooted: HashMap<&'static str, usize> = HashMap::new();
